@@ -1122,6 +1122,12 @@ def preprocess_stylesheet(device_media_type, base_url, stylesheet_rules, url_fet
                             'needs at least two additive symbols',
                             name, rule.source_line, rule.source_column)
                         continue
+            elif (counter['symbols'], counter['additive_symbols']) != (None, None):
+                LOGGER.warning(
+                    'In counter style %r at %d:%d, '
+                    'counter style "extends" must not have symbols',
+                    name, rule.source_line, rule.source_column)
+                continue
 
             counter_style[name] = counter
 
